@@ -634,25 +634,70 @@ func missingKey(c *an.Ctx, r *runnerRoles, cc *ssa.Function, rule string) {
 		c.Und(rule, an.Short(rs)+":Execute", rs.Pos(), "RenderString executes no template")
 	}
 	// Executor.Execute: render dominates the interpreter call, error returns first
-	ex := p.Func("pkg/executor", "DefaultExecutor", "Execute")
+	er := resolveExec(p)
+	ex := er.ex
 	if ex != nil {
 		var render, run ssa.CallInstruction
 		for _, ci := range p.CallSitesOf(rs) {
-			if ci.Parent() == ex {
+			if er.in[ci.Parent()] {
 				if an.FieldProv(ci.Common().Args[0]) == "Job.Command" {
 					render = ci
 				}
 			}
 		}
-		for _, ci := range an.CallsIn(ex, "(*mvdan.cc/sh/v3/interp.Runner).Run") {
-			run = ci
+		if er.run != nil {
+			run = er.run
 		}
 		if render == nil || run == nil {
 			c.Bad(rule, an.Short(ex)+":render", ex.Pos(), "Execute does not render the job's command before running it")
 		} else {
-			fate := p.ErrFate(render, noReturn)
-			c.Check(an.Dominates(render, run) && (fate.Kind == "propagated" || fate.Kind == "converted"), rule, an.Short(ex)+":render-before-run", render.Pos(),
-				"the command is rendered before the interpreter runs and a rendering error returns first", "rendering does not dominate the interpreter call, or its error does not return: "+fate.Detail)
+			// on the Execute trace (helpers inlined): every path that runs the interpreter rendered first,
+			// and a rendering error ends Execute with an error before the interpreter runs
+			order := true
+			exp := er.explorer()
+			exp.Effect = func(in ssa.Instruction, st *an.State) string {
+				switch in {
+				case ssa.Instruction(render.(*ssa.Call)):
+					return "render"
+				case ssa.Instruction(er.run):
+					return "run"
+				}
+				return ""
+			}
+			for _, o := range exp.Run(ex, ex.Blocks[0], nil, nil) {
+				seenRender := false
+				for _, e := range o.Effects {
+					if e == "render" {
+						seenRender = true
+					}
+					if e == "run" && !seenRender {
+						order = false
+					}
+				}
+			}
+			errOK := true
+			exp2 := er.explorer()
+			exp2.Atom = func(v ssa.Value) (an.AVal, bool) {
+				for _, e := range errOf(render.(*ssa.Call)) {
+					if v == e {
+						return an.AVal{K: an.ANonNil}, true
+					}
+				}
+				return an.AVal{}, false
+			}
+			exp2.Effect = exp.Effect
+			nErr := 0
+			for _, o := range exp2.Run(ex, ex.Blocks[0], nil, nil) {
+				if !has(o.Effects, "render") {
+					continue
+				}
+				nErr++
+				if has(o.Effects, "run") || !(o.End == "return" && o.Ret[len(o.Ret)-1].K == an.ANonNil) {
+					errOK = false
+				}
+			}
+			c.Check(order && errOK && nErr > 0, rule, an.Short(ex)+":render-before-run", render.Pos(),
+				"the command is rendered before the interpreter runs and a rendering error returns first", "rendering does not precede the interpreter call on every path, or a rendering error does not end Execute with an error before the interpreter runs")
 			// what is parsed is the rendered text
 			// (the program the interpreter runs ← Parser.Parse ← strings.NewReader ← the rendered text, looking through the helpers of pkg/executor)
 			parsedOK := false
@@ -665,7 +710,7 @@ func missingKey(c *an.Ctx, r *runnerRoles, cc *ssa.Function, rule string) {
 				return false
 			}
 			if len(run.Common().Args) >= 3 {
-				for _, prog := range p.DeepSources(run.Common().Args[2], 3, false) {
+				for _, prog := range er.sources(run.Common().Args[2]) {
 					e, ok := prog.(*ssa.Extract)
 					if !ok || e.Index != 0 {
 						continue
